@@ -1,4 +1,4 @@
 From Coq Require Extraction.
 From Coq Require Import ExtrOcamlBasic.
 From RM Require Import C19.Driver.
-Extraction "c19_model.ml" run_try run_check run_pipeline.
+Extraction "c19_model.ml" run_try run_check run_pipeline run_q.
